@@ -939,7 +939,7 @@ def judge_case(ctx, case, R, M):
     if Mv is not None and Rv.get("err", "").startswith("eval:"):
         # the re-imported model has unresolvable arguments; the model shows the same as names without value
         holes = any(v is None for a in Mv["at"] for sect in ("vals", "rhs") for v in a[sect].values())
-        if holes:
+        if holes or M["read"].get("unresolved"):
             Mv = Rv
     for k, v in stats.items():
         ctx.hist[f"numbers {k}"] = ctx.hist.get(f"numbers {k}", 0) + v
